@@ -123,6 +123,24 @@ def HeadOk (spec : Spec) : Prop :=
   ∃ textTy, spec.nodes.findIdx? (fun n => n.name == "text") = some textTy ∧
     (spec.nodes[textTy]?.map (fun n => n.attrs.isEmpty)).getD true = true
 
+/-- the three checks as a Bool -/
+def headOk (spec : Spec) : Bool :=
+  (spec.nodes.findIdx? (fun n => n.name == spec.topName)).isSome &&
+  match spec.nodes.findIdx? (fun n => n.name == "text") with
+  | none => false
+  | some textTy => (spec.nodes[textTy]?.map (fun n => n.attrs.isEmpty)).getD true
+
+theorem headOk_iff (spec : Spec) : headOk spec = true ↔ HeadOk spec := by
+  unfold headOk HeadOk
+  cases spec.nodes.findIdx? (fun n => n.name == spec.topName) with
+  | none => simp
+  | some top =>
+    cases spec.nodes.findIdx? (fun n => n.name == "text") with
+    | none => simp
+    | some textTy => simp
+
+instance (spec : Spec) : Decidable (HeadOk spec) := decidable_of_iff _ (headOk_iff spec)
+
 /-- the first refusal of the node loop: node type `i` is refused with `err`, every one before it passes -/
 def FirstNodeErr (spec : Spec) (err : BuildErr) : Prop :=
   ∃ i, ∃ hi : i < spec.nodes.length, nodeStep spec spec.nodes[i] = .error err ∧
